@@ -85,6 +85,9 @@ func ScalarHook(name string, pre, post, ret []interface{}) {
 			Rec.ClassMax("max/scalar/Expand/quotient-bits", int64(q.BitLen()))
 		}
 		count("scalar-class/" + cls)
+		if sampleOnce("scalar/" + cls + "/" + Phase) {
+			Rec.Sample(map[string]interface{}{"monitored_call": name, "in": ev.Hex(in), "out_value": SVal(out).Text(16), "quotient_bits": new(big.Int).Div(x, ref.L).BitLen(), "phase": Phase})
+		}
 		if SVal(out).Cmp(want) != 0 || !canonicalLimbs(out) {
 			violate("scalar", name, fmt.Sprintf("input %x: result %s, expected %s", in, SVal(out).Text(16), want.Text(16)),
 				map[string]interface{}{"in": ev.Hex(in), "observed": slimbs(out)})
